@@ -40,3 +40,15 @@ func (c *Conn) VerifWriteState(withBytes bool) VerifWriteState {
 	}
 	return st
 }
+
+// VerifAddDialer registers c with its poller the way DialAsync does for a connect that is in
+// progress: the connected callback is pending and the descriptor is added for reading and writing.
+func (g *Engine) VerifAddDialer(c *Conn, onConnected func(*Conn, error)) error {
+	c.onConnected = onConnected
+	g.wgConn.Add(1)
+	_, err := g.addDialer(c)
+	if err != nil {
+		g.wgConn.Done()
+	}
+	return err
+}
